@@ -24,7 +24,7 @@ import (
 func TestVerifC01(t *testing.T) {
 	out := verifh.Open()
 	defer out.Close()
-	n := 2500
+	n := 2000
 	if verifh.Thorough() {
 		n = 30000
 	}
